@@ -105,6 +105,8 @@ let big_k = ref 0
 let big_secs = ref 0
 let sleeps_seen = ref 0
 let intr_poll = ref 0
+let intr_read = ref 0
+let blocking_reads = ref 0
 let polls_seen = ref 0
 let blocking_waits = ref 0
 (* poll reported stdin writable, and the library polled again (or returned) without having written to it *)
@@ -188,7 +190,14 @@ let serve_call (c : Comm.call) : Comm.result option =
     let kc = (match c with
         | Comm.KPoll (a, b, d, _) when interrupt -> Comm.KPoll (a, b, d, z_of_int 3)
         | _ -> c) in
-    let ((res0, w'), ch') = CommSim.serve fuel w kc !choices in
+    (* ... or the k-th read(2) that has to block (empty pipe, writer still there): EINTR, nothing consumed *)
+    let read_blocks = (match c with
+        | Comm.KRead (st, _) ->
+          let p = (match st with Comm.SErr -> w.CommK.perr | _ -> w.CommK.pout) in
+          p.CommK.buf = [] && p.CommK.wr
+        | _ -> false) in
+    let intr_r = read_blocks && (incr blocking_reads; !intr_read > 0 && !blocking_reads = !intr_read) in
+    let ((res0, w'), ch') = if intr_r then ((CommSim.SRes (Comm.RErr (n_of_int 4)), w), !choices) else CommSim.serve fuel w kc !choices in
     world := Some w'; choices := ch';
     let res = (match res0 with
         | CommSim.SRes (Comm.RPoll (cnt, _, _, _)) when interrupt && int_of_n cnt = 0 -> CommSim.SRes (Comm.RErr (n_of_int 4))
@@ -327,7 +336,8 @@ let () =
        | ["scn"; id] -> reset (); rp "scn %s\n" id; reply "ok"
        | "comm" :: pi :: po :: pe :: ci :: co :: ce :: more ->
          let b s = s = "1" in
-         intr_poll := (match more with [k] -> int_of_string k | _ -> 0); polls_seen := 0;
+         intr_poll := (match more with k :: _ -> int_of_string k | _ -> 0); polls_seen := 0;
+         intr_read := (match more with [_; k] -> int_of_string k | _ -> 0); blocking_reads := 0;
          world := Some (CommK.init_world (b pi) (b po) (b pe) (nat_of_int (int_of_string ci)) (nat_of_int (int_of_string co))
                           (nat_of_int (int_of_string ce)) []);
          lcomm := Some { Comm.c_in = b pi; Comm.c_out = b po; Comm.c_err = b pe; Comm.c_input = [] };
